@@ -105,7 +105,7 @@ class DefaultDictNode(Node):
         trusted: Optional[Sequence[str]] = None,
     ) -> None:
         super().__init__(state, load_context, trusted)
-        self.trusted = ["collections.defaultdict"]
+        self.trusted = self._get_trusted(trusted, ["collections.defaultdict"])
         self.children = {
             "main": get_tree(state["content"]["main"], load_context, trusted=trusted),
             "default_factory": get_tree(
